@@ -24,4 +24,4 @@ for p in "$@"; do
 done
 git -C /repo checkout -- .
 git -C /repo status --short | head -3
-echo "{\"demo_clean_exit\": $c, \"demo_seeded_exit\": $s, \"suite\": \"$suite\", \"checks\": \"$res\"}" > $dst/result.json
+C="$c" S="$s" SUITE="$suite" RES="$res" python3 -c 'import json,os,sys; json.dump({"demo_clean_exit": int(os.environ["C"]), "demo_seeded_exit": int(os.environ["S"]), "suite": os.environ["SUITE"], "checks": os.environ["RES"]}, open(sys.argv[1],"w"))' $dst/result.json
